@@ -221,6 +221,26 @@ class C13(runner.Check):
 					src[i][j] = 0.0
 				pool.append(src)
 			nP = len(pool)
+		redundant = None
+		if not onehot_pool and not bigdb and r.chance(0.15):
+			# a redundant database: several targets contain one query verbatim (with
+			# different flanks), so that query matches them all essentially perfectly
+			# and their (tiny, possibly negative) p-values differ only in the last bits
+			cands_ = [j for j in range(len(pool)) if len(pool[j][0]) >= 3]
+			if cands_:
+				redundant = r.choice(cands_)
+				q_ = pool[redundant]
+				for _ in range(r.randint(2, 3)):
+					left = _gen_motif(r, r.randint(0, 2), "dirichlet") if r.chance(0.6) else None
+					right = _gen_motif(r, r.randint(0, 3), "dirichlet") if r.chance(0.6) else None
+					t = [list(row) for row in q_]
+					if left and left[0]:
+						t = [left[i] + t[i] for i in range(4)]
+					if right and right[0]:
+						t = [t[i] + right[i] for i in range(4)]
+					if len(t[0]) <= 12:
+						targets.append(t)
+				nT = len(targets)
 		nb = r.choice([10, 20, 50, 100])
 		cfg = {"n_score_bins": nb, "n_median_bins": r.choice([50, 1000]),
 			"n_target_bins": r.choice([None, 10, 100]),
@@ -251,6 +271,8 @@ class C13(runner.Check):
 				qs = r.shuffle(base + [r.choice(base) for _ in range(n - len(base))])
 			else:
 				qs = [r.randint(0, nP - 1) for _ in range(n)]
+			if redundant is not None and r.chance(0.6):
+				qs = r.shuffle(qs + [redundant])
 			plan = _gen_plan(s, len(qs), Kmax)
 			call = {"kind": "annotate" if (onehot_pool and r.chance(0.6)) else "tomtom",
 				"queries": qs, "plan": plan,
